@@ -102,6 +102,14 @@ Theorem C07_refuted_noneref :      (* a None reference on a chain: dropped by th
   (model_res Wit.sc WitJ.q_noneref WitJ.wn = Some (Ok [6]) /\ answers Wit.sc WitJ.q_noneref WitJ.wn = Err AttrErr) /\
   f07 Wit.sc WitJ.q_noneref_or WitJ.wn = false.
 Proof. exact refuted_noneref. Qed.
+Theorem C07_refuted_enumorder :    (* <, <=, >, >= on an Enum-valued column: Python raises TypeError, SQL orders the stored member names *)
+  f07 WitJ.sce WitJ.q_enum_lt WitJ.we = false /\
+  model_res WitJ.sce WitJ.q_enum_lt WitJ.we = Some (Ok [1; 3]) /\ answers WitJ.sce WitJ.q_enum_lt WitJ.we = Err TypeErr.
+Proof. exact refuted_enumorder. Qed.
+Example C07_nonvacuous_enum :      (* a bare Enum attribute as condition, ==, in_ on it: inside F07, same rows *)
+  f07 WitJ.sce WitJ.q_enum WitJ.we = true /\ model_res WitJ.sce WitJ.q_enum WitJ.we = Some (Ok [1; 3]) /\
+  answers WitJ.sce WitJ.q_enum WitJ.we = Ok [1; 3].
+Proof. exact nonvacuous_enum. Qed.
 (* (7) a bare variable as comparison operand is never answered, in either order (was C07-e / C07-n) *)
 Theorem C07_rejects_var_operand : forall sc q op l r v,
   q_cond q = Some (CCmp op l r) -> (l = OVar v \/ r = OVar v) -> forall s, translate sc q <> TOk s.
@@ -184,3 +192,4 @@ Print Assumptions C07_refuted_valueeq.
 Print Assumptions C07_refuted_noneref.
 Print Assumptions C07_rejects_var_operand.
 Print Assumptions C07_rejects_setof.
+Print Assumptions C07_refuted_enumorder.
